@@ -41,7 +41,7 @@ def random_string_programs(seed, n, tids):
         terms = []
         for _ in range(rng.randint(1, 4)):
             ln = rng.randint(0, 6)
-            terms.append([rng.choice([1, 2, -3, 5]), [[rng.randrange(nmodes), rng.choice("+-")] for _ in range(ln)]])
+            terms.append([rng.choice([1, 2, -3, 5, [0, 1], [2, -1]]), [[rng.randrange(nmodes), rng.choice("+-")] for _ in range(ln)]])
         progs.append({"driver": "localops", "tid": tids(), "sym": "Z2", "modes": modes, "terms": terms, "bases": bases})
     return progs
 
@@ -76,7 +76,7 @@ def model_programs(seed, n, tids, apply=True):
                 s = rng.choice(spins)
                 if (x, s) != (y, s):
                     ops = [[(x, s), "+"], [(y, s), "+"]] if rng.random() < 0.5 else [[(x, s), "-"], [(y, s), "-"]]
-            return [rng.choice([1, 2, -1, 3]), [[idx[m], c] for m, c in ops]]
+            return [rng.choice([1, 2, -1, 3, 1, 2, [0, 1], [1, -2]]), [[idx[m], c] for m, c in ops]]
 
         terms = [term() for _ in range(rng.randint(1, 4))]
         terms2 = [term() for _ in range(rng.randint(1, 2))]
